@@ -298,6 +298,12 @@ impl ClusterHandler for AdminCommHandler {
                 notify_change,
             )?;
 
+            // Nothing bound to a rolled-back fabric may outlive it
+            #[cfg(feature = "case-resumption")]
+            if let Some(fab_idx) = removed_fabric {
+                state.purge_resumption_for_fabric(fab_idx, ctx.kv())?;
+            }
+
             ctx.exchange().matter().transport().notify_session_removed();
 
             Ok::<_, Error>(removed_fabric)
